@@ -4,8 +4,8 @@
 use super::*;
 use crate::builtin::BuiltinRuntime;
 use std::mem::ManuallyDrop;
-include!("/verif/harness/common_roles.rs");
-include!("/verif/harness/dynamics_common.rs");
+include!("common_roles.rs");
+include!("dynamics_common.rs");
 
 /* ------------------- C06-H2/H3: text, bytes, handle and process operations ------------------- */
 
